@@ -326,6 +326,25 @@ class StmtMixin:
         ik = self.const_key(idx)
         if base.op == "Dict" and ik is not self.NOKEY and aug is None:
             new = self.dict_set(base, ik, value, site)
+        elif base.op == "Dict" and aug is None and idx.op in ("Tuple", "Cfg", "Input", "FStr") and \
+                not any(k[0] == "**" for k in base.attr):
+            # symbolic key: replace the entry stored under the same value, else add one
+            keys, args, done = [], [], False
+            for kd, v in self.dict_items(base):
+                if kd[0] == "n" and self.g.vn(v[0]) == self.g.vn(idx):
+                    keys.append(kd)
+                    args.extend([v[0], value])
+                    done = True
+                elif kd[0] == "n":
+                    keys.append(kd)
+                    args.extend(v)
+                else:
+                    keys.append(kd)
+                    args.append(v)
+            if not done:
+                keys.append(("n",))
+                args.extend([idx, value])
+            new = self.mk("Dict", args, tuple(keys), site)
         elif base.op == "Phi" and ik is not self.NOKEY and aug is None and self._phi_of_dicts(base):
             new = self._phi_map(base, lambda d: self.dict_set(d, ik, value, site), site)
         elif base.op == "List" and idx.op == "Const" and isinstance(idx.attr, int) and aug is None \
